@@ -18,3 +18,25 @@ Definition strip_lb_svg (s : list Z) : list Z := concat (map svg_part (split_on 
 (* strings.ReplaceAll(s, "\n", " ") *)
 Definition one_line (s : list Z) : list Z := map (fun c => if c =? 10 then 32 else c) s.
 Definition one_lines (ls : list (list Z)) : list (list Z) := map one_line ls.
+
+(* ---- execution twins: the same functions with List.rev (quadratic) replaced by rev_append, so
+   that payloads with a single line of 200 000 bytes run in the driver.  Equal to the
+   definitions above (Proofs/FlattenProofs.v, *_fast_eq lemmas); used by Run/C07.v only. ---- *)
+Definition lrev {A} (l : list A) : list A := rev_append l [].
+
+Fixpoint split_on_aux_fast (sep : Z) (s : list Z) (cur : list Z) : list (list Z) :=
+  match s with
+  | [] => [lrev cur]
+  | c :: r => if c =? sep then lrev cur :: split_on_aux_fast sep r [] else split_on_aux_fast sep r (c :: cur)
+  end.
+Definition split_on_fast (sep : Z) (s : list Z) : list (list Z) := split_on_aux_fast sep s [].
+
+Definition trim_space_fast (s : list Z) : list Z :=
+  let t := trim_left s in lrev (trim_right_rev_fuel (length t) (lrev t)).
+
+Definition svg_part_fast (p : list Z) : list Z :=
+  let t := trim_space_fast p in
+  if match lrev t with c :: _ => c =? 62 | [] => false end then t else t ++ [32].
+
+Definition strip_lb_fast (s : list Z) : list Z := concat (map trim_space_fast (split_on_fast 10 s)).
+Definition strip_lb_svg_fast (s : list Z) : list Z := concat (map svg_part_fast (split_on_fast 10 s)).
